@@ -107,6 +107,18 @@ impl ModuleRef {
             .expect("Failed to cast ModuleRef to readonly reference to type T")
     }
 
+    /// Whether this handle still refers to the placeholder that stands in
+    /// for a module which has not been created yet.
+    ///
+    /// A module that is executing one of its callbacks (its processing stack
+    /// is borrowed mutably) has been created, so it is no placeholder.
+    pub(crate) fn is_placeholder(&self) -> bool {
+        self.processing.try_borrow().is_ok_and(|brw| {
+            let rf = &*brw.handler;
+            rf.type_id() == TypeId::of::<DummyModule>()
+        })
+    }
+
     ///
     /// Tries to borrow the referenced module as an readonly
     /// reference to the provided type T.
